@@ -1,7 +1,7 @@
 (* C20 — the par command's exit status reflects the outcome.
    Model: Model/CLI.v (cmd/par/main.go: Go flag parsing as used there, command and extension dispatch,
    result-to-status mapping) over the library models. *)
-From Gopar Require Import Model.Base Model.CRC Model.GoPath Model.FS Model.Par2 Model.Par1 Model.CLI Proofs.CLIFacts Proofs.Par2Facts Proofs.Par2Clean Proofs.Par2Converge Proofs.CLICompose.
+From Gopar Require Import Model.Base Model.CRC Model.GoPath Model.FS Model.Par2 Model.Par1 Model.CLI Proofs.CLIFacts Proofs.Par2Facts Proofs.Par2Clean Proofs.Par2Converge Proofs.CLICompose Proofs.Par1RoundTrip Proofs.CLICompose1.
 From Coq Require Import List. Import ListNotations.
 Open Scope N_scope.
 
@@ -172,3 +172,34 @@ Theorem C20_repair2_zero_then_verify2_zero : forall md5 cwd args par dbl fs st',
   forall cwd2 vargs, cli_is_verify2 vargs par -> fst (cli_run md5 cwd2 vargs (io_init (io_fs st') [])) = 0.
 Proof. exact cli_repair2_zero_then_verify_zero. Qed.
 Print Assumptions C20_repair2_zero_then_verify2_zero.
+
+(* EXIT 0 MEANS SUCCESS, create (PAR1): statuses 0 / 7 (any error) / 2 (a Go panic); status 0 is exactly
+   library success; and after it ANY verify command line on that index exits 0 (premises of the PAR1
+   round-trip theorem Props/C04.v) *)
+Theorem C20_create1_status : forall md5 cwd args par files nvol st,
+  cli_is_create1 args par files nvol ->
+  fst (cli_run md5 cwd args st) =
+    match fst (par1_create md5 par files nvol st) with Ok _ => 0 | Err _ => 7 | Panic _ => 2 end.
+Proof. exact cli_create1_codes. Qed.
+Print Assumptions C20_create1_status.
+
+Theorem C20_create1_zero_means_created : forall md5 cwd args par files nvol fs st',
+  cli_run md5 cwd args (io_init fs []) = (0, st') -> cli_is_create1 args par files nvol ->
+  par1_create md5 par files nvol (io_init fs []) = (Ok tt, st').
+Proof. exact cli_create1_zero_means_created. Qed.
+Print Assumptions C20_create1_zero_means_created.
+
+Theorem C20_create1_zero_then_verify1_zero : forall md5, (forall x, length (md5 x) = 16%nat) ->
+  forall cwd args par files nvol fs st',
+  cli_run md5 cwd args (io_init fs []) = (0, st') -> cli_is_create1 args par files nvol ->
+  let nv := create1_volumes nvol in
+  Forall (fun f => input_name_ok (base f)) files ->
+  Forall (fun f => join2 (dir par) (base f) = f) files ->
+  (forall f d, In f files -> fs_lookup fs f = Some d -> N.of_nat (length d) < 2^64) ->
+  Forall (fun f => f <> par /\ forall k, (1 <= k <= nv)%nat -> f <> volume_path par (N.of_nat k)) files ->
+  (forall k, (nv < k <= Nat.min (256 - length files) 99)%nat ->
+     fs_lookup fs (volume_path par (N.of_nat k)) = None /\ is_dir fs (volume_path par (N.of_nat k)) = false) ->
+  forall cwd2 vargs all, cli_is_verify1 vargs par all ->
+    fst (cli_run md5 cwd2 vargs (io_init (io_fs st') [])) = 0.
+Proof. exact cli_create1_then_verify1_zero. Qed.
+Print Assumptions C20_create1_zero_then_verify1_zero.
